@@ -204,7 +204,7 @@ type caseRun struct {
 
 // count / see buffer evidence per case (the shared context is mutex-guarded).
 func (cr *caseRun) count(k string, n int64) { cr.counts[k] += n }
-func (cr *caseRun) see(table, v string)      { cr.seen[[2]string{table, v}] = true }
+func (cr *caseRun) see(table, v string)     { cr.seen[[2]string{table, v}] = true }
 func (cr *caseRun) flush() {
 	for k, n := range cr.counts {
 		cr.c.Count(k, n)
